@@ -19,7 +19,7 @@ everywhere.
 * `substring_spec` and corollaries — 1-based start, clipped at the end, start below 1 (or NaN) is an error at the
   second argument.
 * `native_join_split` — `JOIN(SPLIT(s, p), p) = s` for every non-empty `p`, through the heap.
-* `position_length`, `forEach_string_cell`, `index_str_ok_iff`, `index_str_value`, `index_integral_iff_partial` —
+* `position_length`, `forEach_string_cell`, `forEach_string_visits`, `index_str_ok_iff`, `index_str_value`, `index_integral_iff_partial` —
   LENGTH / FOR EACH / indexing agree.
 * `string_cast_leftmost` — a wrong argument type is a runtime error at the span of that argument, the
   left-most one first.
@@ -329,6 +329,26 @@ theorem forEach_string_cell (s : Str) :
   refine ⟨(charsToStrs s).map Value.str, ?_, by simp [charsToStrs], fun i h => ?_⟩
   · simp [allocCell, getList]
   · simp [charsToStrs, h]
+
+/-- (b′) the same at the level of the interpreter: `FOR EACH item IN e`, where `e` evaluates to the string `s`
+in the state `σ₁` (with an active scope `fr`), **is** the loop `forLoop … 0 s.length` over the fresh cell
+`(charsToStrs s).map .str` at address `σ₁.heap.length` — `LENGTH(s)` is the iteration bound, and by
+`forEach_string_cell` the value visited at step `i` is the one-character string `[s[i]]`. -/
+theorem forEach_string_visits (cfg : Cfg) (f : Nat) (item : Str) (t1 : Token) (list : Expr) (body : Stmt)
+    (t2 t3 t4 listTok : Token) (σ0 σ σ₁ : St) (s : Str) (fr : Frame) (rest : List Frame)
+    (htick : tick σ0 = some σ) (hl : expr cfg f list σ = .ok (.str s, σ₁)) (hsc : σ₁.scopes = fr :: rest) :
+    stmt cfg (f+1) (.forEach item t1 list body t2 t3 t4 listTok) σ0 =
+      (forLoop cfg f item σ₁.heap.length 0 s.length body
+        { σ₁ with heap := σ₁.heap ++ [.list ((charsToStrs s).map Value.str)],
+                  scopes := fr.erase item :: rest, loops := {} :: σ₁.loops }).bind fun σ' =>
+      (popLoop σ').bind fun σ' =>
+        match fr.get? item with
+        | some v => define σ' item v
+        | none => .ok σ' := by
+  rw [stmt]
+  simp only [htick, hl, Res.bind_ok]
+  simp [removeVar, allocCell, hsc, getList, charsToStrs]
+  rfl
 
 /-- (c) indexing a string: `s[idx]` succeeds exactly for the indices whose 0-based position `natIndex idx`
 is below `s.length` … -/
